@@ -1,0 +1,24 @@
+//go:build verif
+
+// Contracts for package color (comment-only; read by /verif/govc).
+//
+// sb.plain is a ghost projection of the builder: everything written to it
+// except values of the types FgColor, BgColor and Attribute (the escape
+// sequences). "Colouring is lossless" is: painting text appends exactly text
+// to the plain projection.
+
+package color
+
+//@ func Paint
+//@   requires [sb] sb != nil
+//@   assigns *sb
+//@   ensures [lossless] sb.plain == old(sb.plain) + text
+//@ func PaintWithAttr
+//@   requires [sb] sb != nil
+//@   assigns *sb
+//@   ensures [lossless] sb.plain == old(sb.plain) + text
+//@ func PaintWithAttrs
+//@   requires [sb] sb != nil
+//@   assigns *sb
+//@   ensures [lossless] sb.plain == old(sb.plain) + text
+//@   loop 1 invariant [plain-kept] sb.plain == old(sb.plain)
